@@ -11,7 +11,7 @@ import vlib, e2e, sync_e2e
 from sync_e2e import T0
 
 THEOREMS = ['C04_idempotent', 'C04_idempotent_executable', 'C04_mirror_plans_nothing', 'C04_link_text_reads_back', 'C04_time_reads_back',
-            'C04_refuted_for_ill_formed_link_text']
+            'C04_refuted_for_ill_formed_link_text', 'C04_idempotent_walked']
 
 LINK_FORMS = [b'a', b'./a', b'a/', b'a//b', b'../x', b'.', b'..', b'x/./y', b'/abs/x', b'//abs', b'a\\b', b'dir/../a', b' ', b'a b', b'\xc3\xa9',
               b'nonexistent', b'./.', b'a/.', b'.hidden', b'...']
